@@ -4,6 +4,14 @@ import json, os
 V = os.path.dirname(os.path.dirname(os.path.abspath(__file__)))
 
 CHECKS = {
+ "C05": dict(
+    technique="runtime oracle: reference-model root values vs observed == != < <= > >= hash on all pairs of pools; relation laws checked on the observed relation",
+    text="Pools of quantities constructed to contain many physically equal members (every dimension class, a temperature pool built by inverse affine maps "
+         "with offset/absolute/delta units, dimensionless units with distinct root units, products differing by dimensionless roots) are compared pairwise "
+         "by the real operators in the Fraction registry; each outcome is compared with exact root-unit values of an independent model; reflexivity, "
+         "symmetry, transitivity (triples) and trichotomy are checked on the observed relation; cross-dimension, bare-number, NaN and float-away-from-ties clauses.",
+    note="pools are sampled per class in quick (all unit pairs in thorough); tainted units excluded; one recorded finding (delta vs offset comparisons)",
+    ref="4/C05"),
  "C04": dict(
     technique="runtime law checker over exhaustive small containers + icontract class invariants on the live UnitsContainer + operand fingerprints",
     text="All 125 exponent containers over a 3-name alphabet, all 15625 ordered pairs and (thorough) all 1.95M triples are pushed through the real "
